@@ -82,7 +82,9 @@ Fixpoint sorted_by (le : list N -> list N -> bool) (l : list (list N)) : bool :=
   | [] => true
   | x :: r => match r with [] => true | y :: _ => le x y && sorted_by le r end
   end.
-Definition ip_le (x y : list N) : bool := negb (ip_less y x).
+(* x may stand before y: IPv6 before IPv4, else not greater byte-wise *)
+Definition ip_le (x y : list N) : bool :=
+  if Bool.eqb (is_v4 x) (is_v4 y) then negb (bytes_ltb y x) else negb (is_v4 x).
 
 (* ---- result list entries: "<type> <host>:<port>" ---- *)
 Definition known_keywords : list str :=
@@ -128,5 +130,20 @@ Definition spec_call (e : env) (h : helper) (args : list jsval) : outcome :=
   | HisInNet, [JStr a; JStr c; JStr d] => Val (JBool (spec_isInNet e a c d))
   | HisResolvable, [JStr a] => Val (JBool (match spec_resolve4 e a with Some _ => true | None => false end))
   | HdnsResolve, [JStr a] => Val (match spec_resolve4 e a with Some ip => JStr ip | None => JNull end)
-  | _, _ => call_helper e h args       (* resolver tables, version, argument handling of the Go helpers: as transcribed *)
+  | HmyIpAddress, [] => Val (JStr (match e_myip e with ip :: _ => ip | [] => b "127.0.0.1" end))
+  | HgetClientVersion, [] => Val (JStr (b "1.0"))
+  | _, _ => call_helper e h args       (* resolver tables and argument handling of the other Go helpers: as transcribed *)
   end.
+
+(* ---- the reference for a whole evaluation: exactly one entry point; the result must be an ASCII string ---- *)
+Definition spec_check_result (o : outcome) : fpresult :=
+  match o with
+  | OutsideModel => PacOutside
+  | Throws => PacErr
+  | Val (JStr s) => if is_ascii s then PacOk s else PacErr
+  | Val _ => PacErr
+  end.
+Definition spec_find_proxy (e : env) (has_fn has_fnx : bool) (t : tree) (url hostname url_hostname : str) : option fpresult :=
+  if xorb has_fn has_fnx
+  then Some (spec_check_result (eval_tree (spec_call e) url (effective_host hostname url_hostname) t))
+  else None.
